@@ -630,6 +630,7 @@ func extractGBNReader(c *Checker, rg *Ranger, fn *ssa.Function) []rCase {
 func runC19(c *Checker) {
 	w := c.w
 	rg := newRanger(w)
+	ruleCodecErrUsed(c)
 
 	// ---- gbn packets ----
 	msgIface := w.Named("gbn.Message")
@@ -1142,4 +1143,71 @@ func narrowestConv(v ssa.Value) int {
 		v = cv.X
 	}
 	return min
+}
+
+// ruleCodecErrUsed: "malformed inputs are rejected" only helps if the rejection is looked at: at
+// every call of a Serialize/Deserialize function or method of the two packages the error result
+// is used (tested, returned or passed on) - never dropped.
+func ruleCodecErrUsed(c *Checker) {
+	w := c.w
+	n := 0
+	for _, fn := range w.Funcs {
+		ps := w.pkgShort(fn)
+		if (ps != targetMbox && ps != targetGBN) || strings.HasSuffix(w.Fset.Position(fn.Pos()).Filename, "_test.go") {
+			continue
+		}
+		allInstrs(fn, func(in ssa.Instruction) {
+			call, ok := in.(*ssa.Call)
+			if !ok {
+				return
+			}
+			cc := call.Common()
+			name := ""
+			var sig *types.Signature
+			if cc.IsInvoke() {
+				name = cc.Method.Name()
+				sig, _ = cc.Method.Type().(*types.Signature)
+				if nn := namedOf(cc.Value.Type()); nn == nil || nn.Obj().Pkg() == nil || !(strings.HasSuffix(nn.Obj().Pkg().Path(), "/mailbox") || strings.HasSuffix(nn.Obj().Pkg().Path(), "/gbn")) {
+					return
+				}
+			} else if sc := cc.StaticCallee(); sc != nil {
+				name = sc.Name()
+				sig = sc.Signature
+				if p := w.pkgShort(sc); p != targetMbox && p != targetGBN {
+					return
+				}
+			}
+			if (name != "Serialize" && name != "Deserialize") || sig == nil || sig.Results().Len() == 0 {
+				return
+			}
+			last := sig.Results().Len() - 1
+			if !types.Identical(sig.Results().At(last).Type(), types.Universe.Lookup("error").Type()) {
+				return
+			}
+			n++
+			used := false
+			refs := call.Referrers()
+			if refs != nil {
+				for _, r := range *refs {
+					if _, isDbg := r.(*ssa.DebugRef); isDbg {
+						continue
+					}
+					if sig.Results().Len() == 1 {
+						used = true
+						continue
+					}
+					if ex, ok := r.(*ssa.Extract); ok && ex.Index == last {
+						for _, r2 := range *ex.Referrers() {
+							if _, isDbg := r2.(*ssa.DebugRef); !isDbg {
+								used = true
+							}
+						}
+					}
+				}
+			}
+			c.decide(used, "CODEC", "error used|"+fnName(fn)+"|"+calleeLabel(cc), instrPos(call), "the codec's error result is looked at",
+				"the error of "+calleeLabel(cc)+" is dropped in "+fnName(fn)+": a malformed message is treated as a valid (empty or partial) one")
+		})
+	}
+	c.decide(n >= 8, "CODEC", "error used|sites", token.NoPos, fmt.Sprintf("%d codec call sites", n), fmt.Sprintf("only %d Serialize/Deserialize call sites found", n))
 }
